@@ -250,6 +250,17 @@ def step (st : St) (ts : List String) : St × String :=
     | _ => none
   match r with
   | some out => (st, out)
-  | none => bad
+  | none =>
+    -- Constraint::setTolerance / setMaxIterations mid-script: read at call time by everything that follows
+    match ts with
+    | ["settol", t] =>
+      match parseFloatBits? t with
+      | some t => ({ st with P := { st.P with tolSq := t * t } }, "ok")
+      | none => bad
+    | ["setmaxiter", k] =>
+      match k.toNat? with
+      | some k => ({ st with P := { st.P with maxIter := k } }, "ok")
+      | none => bad
+    | _ => bad
 
 end OmplModel.Driver.ConstrainedDrv
